@@ -185,12 +185,20 @@ ObsMoments == [rows |-> [i \in Rows |-> <<Gof(rows[i]), Yof(rows[i]), Cof(rows[i
                ratios |-> RatiosDef, S |-> S, G |-> G,
                moments |-> [q \in 1..Len(KindSeq) |-> MomentObs(KindSeq[q])],
                loss |-> LossObs, err |-> ErrObs]
+\* regression hypotheses for the loss moments: feature value -> prediction in {0, 1/2, 1} (halves 0..2)
+RegHyp == [0..(F - 1) -> 0..2]
+RegHypSeq == SetToSeq(RegHyp)
+RegOf(hy) == [i \in Rows |-> hy[Fof(rows[i])]]
+BGLTable == [loss \in {"square", "absolute"} |-> [q \in 1..Len(RegHypSeq) |->
+               [g \in 1..G |-> IF g \in GroupsPresent THEN BGLGamma(loss, RegOf(RegHypSeq[q]), 0, 2, g) ELSE Undef]]]
 \* payoff table of the whole hypothesis class (C08 / C09)
 HypSeq == SetToSeq(Hyp)
 TableObs == [rows |-> [i \in Rows |-> <<Gof(rows[i]), Yof(rows[i]), Cof(rows[i]), Fof(rows[i])>>],
              ratios |-> RatiosDef, S |-> S, G |-> G, F |-> F,
              hyps |-> [q \in 1..Len(HypSeq) |-> [f \in 1..F |-> HypSeq[q][f - 1]]],
              err |-> [q \in 1..Len(HypSeq) |-> Err(HofHyp(HypSeq[q]))],
+             reg_hyps |-> [q \in 1..Len(RegHypSeq) |-> [f \in 1..F |-> RegHypSeq[q][f - 1]]],
+             bgl |-> BGLTable,
              moments |-> [m \in 1..Len(KindSeq) |->
                  [kind |-> KindSeq[m], index |-> [j \in 1..Len(IdxSeq(KindSeq[m])) |-> Flat(IdxSeq(KindSeq[m])[j])],
                   gamma |-> [rq \in 1..Len(RatiosDef) |-> [q \in 1..Len(HypSeq) |->
